@@ -377,7 +377,7 @@ def check_loop(c):
     try:
         path = os.path.join(d, "im.fits")
         skyimg.write_fits(path, img, hdr, dtype=np.float64, rep=c.get("rep"))
-        comps = SourceFinder().find_sources_in_image(path, rms=rms, bkg=0.0, docov=c["docov"], cores=1)
+        comps = SourceFinder().find_sources_in_image(path, rms=rms, bkg=0.0, docov=c["docov"], cores=1, **skyimg.cube_kw(c.get("rep")))
         if len(comps) != len(sky):
             res.bad("loop-count", "%d isolated sources injected, %d components found" % (len(sky), len(comps)), docov=c["docov"])
             return res
